@@ -56,7 +56,7 @@ const (
 
 	// stallAfter only detects a hang (p9 stops consuming or never returns);
 	// it is never part of a pass verdict.
-	stallAfter = 30 * time.Second
+	stallAfter = 45 * time.Second
 )
 
 // kase is one element of the enumerated space.
@@ -316,6 +316,7 @@ func (l *sockLink) Kill() {
 func (l *sockLink) Close() {
 	l.closed.Store(true)
 	l.peer.Close()
+	l.p9c.Close() // normally closed by p9 already
 	l.closeInq()
 }
 func (l *sockLink) Reads() int { return -1 }
@@ -659,7 +660,6 @@ func runServer(k kase) *obs {
 				return
 			}
 		}
-		base := len(fs.Calls)
 		readsBefore := l.Reads()
 		data := b.stream
 		if k.Trunc >= 0 {
@@ -696,7 +696,9 @@ func runServer(k kase) *obs {
 			o.reads = rd - readsBefore
 		}
 		if returned {
-			for _, c := range fs.Calls[base:] {
+			// All backend calls, including those of the (identical) setup:
+			// the log is only read after Handle returned.
+			for _, c := range fs.Calls {
 				o.Calls = append(o.Calls, callString(c))
 			}
 		}
@@ -1233,8 +1235,9 @@ type checker struct {
 	rep     *fw.Report
 	bases   map[string]*obs
 	sampled map[string]bool
-	broken  map[string]bool // receive paths on which p9 panicked
-	quiet   bool            // do not count (canary cases run by every worker)
+	broken  map[string]bool // receive paths on which p9 panicked or stalls
+	stalls  map[string]int
+	quiet   bool // do not count (canary cases run by every worker)
 }
 
 func (c *checker) execute(k kase) *obs {
@@ -1317,10 +1320,21 @@ func (c *checker) report(k kase, o *obs, base *obs) {
 			return
 		}
 	}
+	stalled := false
 	for _, p := range o.Problems {
 		clause := "connection-handling"
 		if strings.HasPrefix(p, "stall") || strings.Contains(p, "did not return") || strings.Contains(p, "stopped consuming") {
 			clause = "stall"
+			if !stalled {
+				stalled = true
+				c.stalls[k.Path]++
+			}
+			if c.stalls[k.Path] >= 2 && !c.broken[k.Path] {
+				// Every stalled case costs stallAfter; do not let a defect
+				// of this kind turn the run into hours.
+				c.broken[k.Path] = true
+				rep.NotExhaustive("p9 stops making progress on the " + k.Path + " path; remaining cases of that path are skipped in this worker")
+			}
 		} else if strings.HasPrefix(p, "harness:") || strings.HasPrefix(p, "setup:") {
 			clause = "setup"
 		}
@@ -1373,7 +1387,7 @@ func (c *checker) report(k kase, o *obs, base *obs) {
 func (c *checker) one(k kase, info []frameInfo) {
 	rep := c.rep
 	if c.broken[k.Path] {
-		rep.Count("cases_skipped_after_panic", 1)
+		rep.Count("cases_skipped_path_broken", 1)
 		return
 	}
 	if c.quiet {
@@ -1385,6 +1399,7 @@ func (c *checker) one(k kase, info []frameInfo) {
 	}
 	base := c.baseline(k, info)
 	if c.broken[pathGeneric] {
+		rep.Count("cases_skipped_path_broken", 1)
 		return
 	}
 	o := c.execute(k)
@@ -1421,7 +1436,7 @@ func run(ctx *fw.Ctx, rep *fw.Report) {
 	memfs.RecordSites = false
 	rep.Rule = "streams of 1-3 frames with and without payload in both directions (T-frames into the real Server; R-frames into the real Client answering its pending calls), each delivered over the generic io.Reader path (vpipe with planned Read sizes) and the recvmsg path (real AF_UNIX stream socketpair as *net.UnixConn; segment i+1 written only after FIONREAD on the reader's socket reports 0). " +
 		fmt.Sprintf("Streams of <= %d bytes: ALL 2^(n-1) segmentations. Longer streams: every segmentation with <= 2 cut points, all-single-bytes, cuts at all buffer boundaries (frame start, size field, header, fixed part, frame end) shifted by -1/0/+1 and their union (thorough tier: also every 3-subset of those boundary positions). ", exhaustiveLen) +
-		"Every truncation point t in [0,len) followed by EOF, prefix delivered whole and as single bytes. Stream alphabets: see info.streams_*. One state = (direction, path, stream, cut set, truncation point); transitions = reads p9 performed on the vpipe / segments written to the socket; distinct = (direction, path, stream, observed messages)"
+		"Every truncation point t in [0,len) followed by EOF, prefix delivered whole and as single bytes. Before the sharded enumeration every worker runs a small uncounted canary (client direction, 4 streams, single cuts / boundary pairs / single bytes on both paths) so that a panic in p9's receive code is reported as a violation instead of crashing the workers. Stream alphabets: see info.streams_*. One state = (direction, path, stream, cut set, truncation point); transitions = reads p9 performed on the vpipe / segments written to the socket; distinct = (direction, path, stream, observed messages)"
 	rep.Assumptions = append(rep.Assumptions,
 		"frames of one stream are mutually independent (disjoint fids/offsets), so the server's concurrent execution order cannot change the observation; backend calls and replies are compared as multisets",
 		"the reference observation is the unsegmented run on the generic path (for truncated streams: the complete frames followed by EOF), cross-checked against direct expectations written from the frame contents",
@@ -1431,7 +1446,7 @@ func run(ctx *fw.Ctx, rep *fw.Report) {
 		rep.Violate(&fw.Violation{Fingerprint: "C17|setup|receive-paths", Summary: "cannot exercise both receive paths: " + err.Error(), Scenario: "setup"})
 		return
 	}
-	c := &checker{ctx: ctx, rep: rep, bases: map[string]*obs{}, sampled: map[string]bool{}, broken: map[string]bool{}}
+	c := &checker{ctx: ctx, rep: rep, bases: map[string]*obs{}, sampled: map[string]bool{}, broken: map[string]bool{}, stalls: map[string]int{}}
 
 	if ctx.Replay != nil {
 		var k kase
